@@ -47,8 +47,10 @@ TCall == /\ HasLine("call")
               [] L.api \in {"write_setter", "write_state"} -> WriteSetter(L.i, L.v)
               [] L.api = "write_model"  -> WriteModel(L.i, L.v)
               [] L.api = "set_attr"     -> SetTag(L.i, L.v)
+              [] L.api = "decorate_bound" -> Refused(L.i)
               [] L.api = "add_listener" -> AddListeners(L.i, SeqToSet(L.vs))
               [] L.api = "copy"         -> Copy(L.i, L.j)
+              [] L.api = "copy_reset"   -> CopyReset(L.i, L.j, L.gv)
               [] OTHER -> FALSE
          /\ Consume
 
